@@ -122,6 +122,9 @@ MonthsOf(u)    == CASE u = "m" -> 1 [] u = "q" -> 3 [] u = "y" -> 12
 
 \* Month units are claimed at midnight only (the code resets the time of day: outside the
 \* domain, see TenorInDomain); the law below carries the time of day along for every unit.
+\* Named deviation WeekendKeepsClock: a business-day bump also carries the time of day along when a
+\* weekend start rolls to Monday (Sat 23:00 + 0b = Mon 23:00, Sun 01:00 + 0b = Mon 01:00), so
+\* "monotone in t" is a law of the date (MonotoneB in MC_Bump), not of instants inside one weekend.
 AddUnit(t, n, u) ==
     CASE u = "d" -> AddDur(t, n, 0, 0)
       [] u = "w" -> AddDur(t, 7 * n, 0, 0)
